@@ -48,6 +48,9 @@ func init() {
 	}
 	Configs["vamana-wide"] = Config{Name: "vamana-wide", NoExtras: true, PVec: 0.95, VecRange: 1500, VecLine: true, Props: append([]Prop{
 		{Name: "v", Type: models.IndexTypeVectorVamana, Metric: models.DistanceEuclidean, Dim: 2, SearchSize: 75, DegreeBound: 64, Alpha: 1.2}}, filt...)}
+	// an index built with the smallest search window while queries ask for up to 75
+	Configs["vamana-win25"] = Config{Name: "vamana-win25", NoExtras: true, PVec: 0.9, Props: append([]Prop{
+		{Name: "v", Type: models.IndexTypeVectorVamana, Metric: models.DistanceEuclidean, Dim: 3, SearchSize: 25, DegreeBound: 32, Alpha: 1.2}}, filt...)}
 	// saturated neighbourhoods: many dimensions, few distinct component values, so that
 	// robust pruning removes little and the degree bound is actually reached
 	Configs["vamana-dense"] = Config{Name: "vamana-dense", NoExtras: true, PVec: 0.95, VecRange: 2, NIDs: 1300, Props: append([]Prop{
